@@ -34,6 +34,19 @@ CHECKS["C03"] = (
     "DESIGN.md §2 C03",
 )
 
+CHECKS["C04"] = (
+    "reference-model monitor at a hook: MStepProbe snapshots (parameters before, statistics in force, burn-in flag) at every M-step of real MCMC-SAEM fits; float64 closed forms recomputed from the snapshot and from an independent recount of observed entries",
+    "Held on every parameter of every M-step observed (thousands per run) across model kinds, noise structures, missing-data patterns and positions of the memory-less boundary. Exploration; mixture per-cluster means/stds not judged (weighting not documented).",
+    "Trusts vf/refmodel/mstep.py (the documented closed forms) and the snapshot taken at entry of update_parameters.",
+    "DESIGN.md §2 C04",
+)
+CHECKS["C05"] = (
+    "offline checker over a recorded trace: (k, s_k, S_(k-1), S_k) recorded at every iteration of real runs, recursion replayed in float64; constructor monitor on a grid of step powers",
+    "Held on every iteration of the runs observed over a grid of (n_iter, burn-in fraction/count, power, model kind); refusal of powers outside (0.5,1] checked on ~80 values incl. the boundaries. Exploration.",
+    "Trusts the recorded s_k (return value of the real compute_sufficient_statistics) as input of the replay.",
+    "DESIGN.md §2 C05",
+)
+
 NOT_YET = {}
 
 QUICK_BASELINE = (
